@@ -607,6 +607,76 @@ class Square(Shape):
 '''
 
 
+NESTED_NEW_SOURCE = '''
+import icontract
+
+
+@icontract.invariant(lambda self: HUB.inv("base", self))
+class NB(icontract.DBC):
+    """Constructed by __new__ only (no __init__ anywhere in the hierarchy)."""
+
+    def __new__(cls, x=0):
+        HUB.log("new-enter", "NB", None)
+        obj = super().__new__(cls)
+        obj.x = x
+        HUB.log("new-exit", "NB", None)
+        return obj
+
+
+@icontract.invariant(lambda self: HUB.inv("derived", self) and self.y >= 0)
+class ND(NB):
+    def __new__(cls, x=0, y=1):
+        HUB.log("new-enter", "ND", None)
+        obj = super().__new__(cls, x)
+        obj.y = y
+        HUB.log("new-exit", "ND", None)
+        return obj
+
+
+class NE(ND):
+    def __new__(cls, x=0, y=1, z=2):
+        HUB.log("new-enter", "NE", None)
+        obj = super().__new__(cls, x, y)
+        obj.z = z
+        HUB.log("new-exit", "NE", None)
+        return obj
+'''
+
+
+def run_nested_new(w) -> None:
+    """__new__ of a derived class calling super().__new__(): only the outermost __new__ hands over a finished object."""
+    loaded = prog.load_source(NESTED_NEW_SOURCE, w.scratch())
+    mod, hub = loaded.module, loaded.hub
+    try:
+        for cname, want_invs in (("NB", ["base"]), ("ND", ["base", "derived"]), ("NE", ["base", "derived"])):
+            hub.reset()
+            case = {"nested_new": cname}
+            w.count("constructions")
+            w.count("nested_new_constructions")
+            w.case(("nested-new", cname))
+            try:
+                obj = getattr(mod, cname)()
+                outcome = type(obj).__name__
+            except BaseException as err:  # pylint: disable=broad-except
+                outcome = "raise {}: {}".format(type(err).__name__, str(err)[:120])
+            kinds = [(e.kind, e.id) for e in hub.events]
+            last_exit = max([i for i, k in enumerate(kinds) if k == ("new-exit", cname)], default=None)
+            early = [i2 for k, i2 in (kinds[:last_exit] if last_exit is not None else kinds) if k == "inv"]
+            if early:
+                w.violation("C03/invariant-evaluated-inside-nested-new", "{}(): invariants {} were evaluated before the outermost __new__ had "
+                            "returned (events {}; outcome {})".format(cname, early, kinds, outcome), case)
+                continue
+            if outcome != cname:
+                w.violation("C03/construction-through-nested-new-fails", "{}(): {}; events {}".format(cname, outcome, kinds), case)
+                continue
+            invs = [i2 for k, i2 in kinds if k == "inv"]
+            if invs != want_invs:
+                w.violation("C03/invariants-after-construction-differ", "{}(): after the construction the invariants {} were evaluated, expected {}".format(
+                    cname, invs, want_invs), case)
+    finally:
+        loaded.unload()
+
+
 def run_factory_new(w) -> None:
     """__new__ of a class without __init__ acting as a factory for its subclasses (which may have constructors)."""
     # (only on the contract-inheriting base: invariants on plain subclasses of invariant-carrying classes are a silent zone)
@@ -653,6 +723,7 @@ def run(w) -> None:
     rng = w.rng
     if w.shard == 0:
         run_factory_new(w)
+        run_nested_new(w)
     n = 12000 if w.tier == "thorough" else 1200
     flavours = ["plain", "plain", "plain", "slots", "dataclass", "frozen", "own-new", "namedtuple"]
     for i in range(n):
@@ -677,6 +748,9 @@ def run(w) -> None:
 def replay(case, w) -> None:
     if "factory_new" in case:
         run_factory_new(w)
+        return
+    if "nested_new" in case:
+        run_nested_new(w)
         return
     plans = plans_from_json(case["plans"])
     oracle = Oracle(plans)
